@@ -58,6 +58,14 @@ static std::vector<Conf> menu()
   m.push_back({"abf-1d-history", d + "abf {\n colvars d\n fullSamples 1\n maxForce 1.5\n hideJacobian on\n}\n", true, false, 300});
   m.push_back({"abf-2d", d + CV_D2 + "abf {\n colvars d d2\n fullSamples 1\n}\n", true, true, 300});
   m.push_back({"eabf-czar", std::string(CV_D_EXT) + "abf {\n colvars d\n fullSamples 1\n}\n", true, false, 300});
+  {
+    // a light, quickly moving fictitious coordinate: it leaves and re-enters the ABF grid within a few steps, out of phase with
+    // the actual coordinate (the CZAR data are binned by the actual coordinate, the ABF data by the fictitious one)
+    std::string fast = CV_D_EXT;
+    size_t a = fast.find("extendedTimeConstant 20.0");
+    fast.replace(a, strlen("extendedTimeConstant 20.0"), "extendedTimeConstant 3.0");
+    m.push_back({"eabf-czar-fast-coordinate", fast + "abf {\n colvars d\n fullSamples 1\n}\n", true, false, 300});
+  }
   m.push_back({"harmonic-ti", d + "harmonic {\n colvars d\n centers 1.5\n forceConstant 2.0\n writeTIPMF on\n}\n", true, false, 0});
   return m;
 }
@@ -125,6 +133,94 @@ static std::string state_diff(std::string const &a, std::string const &b, double
     }
     return "token " + std::to_string(n) + " after keyword '" + ctx + "': '" + ta + "' vs '" + tb + "'";
   }
+}
+
+// ------------------------------------------------------------------------------------------------
+// Long scripted history x EVERY stop step: one trajectory of LH steps in which the coordinate wanders in and out of the
+// grid (and, for extended-Lagrangian variables, the fictitious coordinate does so out of phase), system forces vary, and
+// the run is stopped at every step K, resumed from the text and from the binary state, and compared with the
+// uninterrupted run step by step and in the final state.  Complements the short-word enumeration: data that live only in
+// memory (stale caches, counters) need a longer past to differ.
+// ------------------------------------------------------------------------------------------------
+static void long_place(vproxy &px, long s)
+{
+  double v = 2.0 + 1.45 * std::sin(0.37 * s) + 0.3 * std::sin(1.3 * s);
+  double f = 1.5 * std::sin(0.9 * s + 0.4);
+  px.x[0] = cvm::rvector(0, 0, 0);
+  px.x[1] = cvm::rvector(v, 0, 0);
+  px.x[2] = cvm::rvector(0, 3, 0);
+  px.x[3] = cvm::rvector(1.45 + 0.4 * std::sin(0.61 * s), 3, 0);
+  px.fsys[0] = cvm::rvector(-f, 0, 0);
+  px.fsys[1] = cvm::rvector(f, 0, 0);
+  px.fsys[2] = cvm::rvector(0.5, 0, 0);
+  px.fsys[3] = cvm::rvector(-0.5 * f, 0, 0);
+}
+static std::vector<double> long_obs(vproxy &px)
+{
+  std::vector<double> v;
+  v.push_back(px.cv("d")->value().real_value);
+  v.push_back(px.energy);
+  for (int a = 0; a < 4; a++) { v.push_back(px.fapp[a].x); v.push_back(px.fapp[a].y); v.push_back(px.fapp[a].z); }
+  return v;
+}
+static void long_history(Conf const &c, bool same_step, int LH, Result &r)
+{
+  auto fresh = [&](long s) {
+    vproxy *px = new vproxy(4, same_step);
+    px->set_target_temperature(c.temperature);
+    long_place(*px, s);
+    if (px->config(c.text) != 0) { fprintf(stderr, "HARNESS-ERROR: %s rejected (long history): %s\n", c.name, px->errtxt.c_str()); exit(2); }
+    return px;
+  };
+  // uninterrupted run
+  std::vector<std::vector<double>> o0(LH);
+  vproxy *px = fresh(0);
+  for (long s = 0; s < LH; s++) { long_place(*px, s); if (px->step(s) != 0) { fprintf(stderr, "HARNESS-ERROR: %s long history step error: %s\n", c.name, px->errtxt.c_str()); exit(2); } o0[s] = long_obs(*px); r.count("transitions"); }
+  px->end_run();
+  std::string final0 = px->state_text();
+  delete px;
+  std::string base = std::string("{\"config\":\"") + c.name + "\",\"timing\":\"" + (same_step ? "same-step" : "lagged") + "\",\"history\":\"scripted, " + std::to_string(LH) + " steps\"";
+  for (int K = 0; K < LH - 1; K++) {
+    // first part: steps 0..K, end of run, state saved
+    px = fresh(0);
+    for (long s = 0; s <= K; s++) { long_place(*px, s); px->step(s); r.count("transitions"); }
+    px->end_run();
+    std::string st_text = px->state_text();
+    std::vector<unsigned char> st_bin = px->state_binary();
+    delete px;
+    for (int bin = 0; bin <= 1; bin++) {
+      r.count("evaluations");
+      double rel = bin ? 1e-12 : 1e-9;
+      std::string det = base + ",\"stop_step\":" + std::to_string(K) + ",\"format\":\"" + (bin ? "binary" : "text") + "\"";
+      px = fresh(K);
+      if (bin) px->queue_state_binary(st_bin); else px->queue_state_text(st_text);
+      bool bad = false;
+      for (long s = K; s < LH && !bad; s++) {
+        long_place(*px, s);
+        if (px->step(s) != 0) { r.violation(std::string("C03:resumed-run-error:") + c.name, det + ",\"step\":" + std::to_string(s) + ",\"error\":\"" + jesc(px->errtxt.substr(0, 300)) + "\"}"); bad = true; break; }
+        r.count("transitions");
+        std::vector<double> o = long_obs(*px);
+        double scale = 1.0;
+        for (double x : o0[s]) scale = std::max(scale, std::fabs(x));
+        for (size_t i = 0; i < o.size(); i++)
+          if (!close_rel(o[i], o0[s][i], scale, rel, 1e-12)) {
+            const char *what = i == 0 ? "value" : (i == 1 ? "energy" : "force");
+            r.violation(std::string("C03:resumed-run-differs:") + c.name + ":" + what + ":" + ((s == K) ? "at-the-repeated-step" : "after-the-stop"),
+                        det + ",\"step\":" + std::to_string(s) + ",\"resumed\":" + num(o[i]) + ",\"uninterrupted\":" + num(o0[s][i]) + "}");
+            bad = true;
+            break;
+          }
+      }
+      if (!bad) {
+        px->end_run();
+        std::string df = state_diff(final0, px->state_text(), rel);
+        if (df.size()) r.violation(std::string("C03:final-state-differs:") + c.name, det + ",\"difference\":\"" + jesc(df) + "\"}");
+      }
+      delete px;
+      r.seen("nontrivial", fnv(det));
+    }
+  }
+  r.seen("states", fnv(std::string(c.name) + "long" + final0));
 }
 
 int main(int argc, char **argv)
@@ -265,6 +361,17 @@ int main(int argc, char **argv)
         }
         r.seen("nontrivial", fnv(base));
         if (ji % 997 == 0) r.sample(base + ",\"stops\":\"every K\",\"formats\":[\"text\",\"binary\"]}");
+      }
+    }
+    // long scripted history, every stop step, for every configuration (one configuration x timing per work item)
+    {
+      int LH = thorough ? 64 : 40;
+      size_t item = 0;
+      for (size_t ci = 0; ci < confs.size(); ci++) {
+        if (only.size() && only != confs[ci].name) continue;
+        if (confs[ci].centres_only) continue;  // (these configurations are only meaningful on bin centres)
+        for (int ss = 0; ss <= (confs[ci].forces ? 1 : 0); ss++, item++)
+          if ((int) (item % nsh) == shard) long_history(confs[ci], ss != 0, LH, r);
       }
     }
   }, total, 7200);
